@@ -58,7 +58,7 @@ func TestCheck(t *testing.T) {
 
 	specs := allSpecs()
 	r.Rule(fmt.Sprintf("case i probes cell i mod %d of the table boundary×operation×value-kind×fork (every cell the same number of times) with a value from charon's eth2 fuzzer seeded by the case PRNG: "+
-		"(a) hand in, scribble the caller's copy, read; (b) two readers / 2–5 subscribers of one fan-out; (c) scribble one result, read again / re-store; (d) the same from 4–8 goroutines with one mutating owner; (e) 2–6 readers blocked on the key (confirmed from the goroutine dump) when one store resolves them together, plus late readers, one blocked reader scribbles its copy; "+
+		"(a) hand in, scribble the caller's copy, read; (b) two readers / 2–5 subscribers of one fan-out; (c) scribble one result, read again / re-store; (d) the same from 4–8 goroutines with one mutating owner; (e) 2–6 readers blocked on the key (confirmed from the goroutine dump) when one store resolves them together, plus late readers, one blocked reader scribbles its copy; (f) hand-overs that fail or are cancelled (dead context, expired duty, failing subscriber, context cancelled while the harness deadliner holds the store inside Add — confirmed by the gate), caller scribbles, pristine value stored, read back; "+
 		"non-trivial = the probed values reach at least one piece of mutable memory (pointer, slice backing, map) and at least the hand-in and the two-observer phases ran; distinct = hash(cell, deep digest of the value, goroutine count)", len(specs)))
 	r.Assume("reflection walker (harness/c18/alias) sees all mutable memory of the workflow types: pointers, slices, maps, unexported fields via reflect.NewAt; strings/funcs/chans are treated as immutable; checked by alias's own unit tests and by mutants")
 	r.Assume("content equality is judged on the core JSON encoding (plus SSZ-independent deep digest between two reads of the same kind); fields no encoding carries (VersionedProposal.ConsensusValue/ExecutionValue) are only covered by the overlap oracle and the deep digest")
@@ -73,6 +73,8 @@ func TestCheck(t *testing.T) {
 	r.Require("concurrent_probes", 100)
 	r.Require("cells_covered", int64(len(specs)))
 	r.Require("blocked_reader_probes_confirmed_k>=2", 300)
+	r.Require("failed_handover_probes", 400)
+	r.Require("failed_handover_confirmed_returned_while_store_held", 30)
 	r.Set("cells", len(specs))
 
 	n := r.N(len(specs)*5, len(specs)*40)
